@@ -5,6 +5,7 @@ import PSO.Proofs.BridgeSendCut
 import PSO.Proofs.BridgeKeys
 import PSO.Proofs.BridgeFollower
 import PSO.Proofs.BridgeLeader
+import PSO.Proofs.BridgeSnapshot
 
 /-!
 # Bridge theorems: handler model ⊑ protocol model
@@ -22,7 +23,8 @@ by exactly the handler's outputs read as model messages (`absOuts`)*.
 Files: `BridgeAbs` (abstraction, node-level readings of `step`), `BridgeVote`, `BridgeTick`, `BridgeAck`,
 `BridgeSend`, `BridgeSendCut` (node-level lemmas), `BridgeFollower` (`append_entries` handler ⊑ `recvAppend`:
 `appendEntries_refines`, `appendEntries_chunk_refines`, `appendEntries_finish_refines`), `BridgeLeader` (queue dispatch ⊑
-`clientAppend`: `leaderDispatch_refines`, `dispatch_idle_abs`), `BridgeKeys` (`KeysTracked` and `WFLog` are invariants of
+`clientAppend`: `leaderDispatch_refines`, `dispatch_idle_abs`), `BridgeSnapshot` (snapshot message ⊑ `recvSnapshot`:
+`snapshot_refines`, `snapshot_partial_refines`, `snapshot_refines_S`; abstraction `absNodeM`), `BridgeKeys` (`KeysTracked` and `WFLog` are invariants of
 `PSO.NodeTick.step`: `step_keysTracked`, `step_wfLog`).  Final statements, examples and the three
 hypothesis-is-needed findings are below.
 
@@ -647,6 +649,67 @@ example : ∀ s' o br, NodeSend.leaderDispatch {} exLeaderS ⟨.regular, 7, 10, 
 /-- a follower forwards the command: abstraction unchanged. -/
 example : absNodeS [] exExtra (NodeSend.followerDispatch exFollowerS ⟨.regular, 7, 10, 54⟩ (.loc 41)).1 =
     absNodeS [] exExtra exFollowerS := followerDispatch_abs [] exExtra exFollowerS _ _
+
+/-! ### 9. snapshot messages (`BridgeSnapshot.lean`) -/
+
+def exPrevE : NodeSend.Entry := ⟨⟨.regular, 3, 10, 54⟩, 4, 1⟩
+def exLastE : NodeSend.Entry := ⟨⟨.regular, 4, 10, 54⟩, 5, 1⟩
+/-- the sender's entries 1..3 (the new ghost) -/
+def exGhost' : List Raft.Entry := absLogS exLogS
+def exPfx : List Raft.Entry := exGhost' ++ absLogS [exPrevE, exLastE]
+
+/-- journal (index, term), lastApplied, commit, term, model messages of the outputs -/
+def exViewM (r : NodeSend.Extra × NodeSend.Node × Except NodeSend.Err (List NodeSend.Out) × NodeSend.EnvObs) :
+    List (Nat × Nat) × Nat × Nat × Nat × List Raft.Msg :=
+  match r with
+  | (_, s', .ok outs, _) => (s'.log.map (fun e => (e.idx, e.term)), s'.lastApplied, s'.commit, s'.term, absOutsS 1 outs)
+  | (_, _, .error _, _) => ([], 0, 0, 0, [])
+
+/-- INSTALL: the follower (journal 1..3, applied 1) gets the snapshot of index 5 with leader commit 6:
+journal := entries 4, 5; applied 5; commit 5; `ack 1 1 0 4`; model log := `pfx`. -/
+example := snapshot_refines {} rfl exExtra exFollowerS 0 1 6 [] exGhost' rfl (by simp [exFollowerS, exLogS])
+    exLogS_wf.idx exPrevE exLastE [] exPfx (by decide) (by decide) (by decide) rfl 3 1
+    { nodes := fun _ => absNodeM [] exExtra exFollowerS, msgs := [.snapshot 1 0 1 (5 - 1) 1 (6 - 1) exPfx] } rfl
+    (List.mem_cons_self ..)
+
+example : snapKeeps exFollowerS exLastE = false ∧
+    exViewM (NodeSend.appendMsgEnv {} exExtra exFollowerS 0 1 6 (.snapshot (.complete exPrevE exLastE []))) =
+      ([(4, 1), (5, 1)], 5, 5, 1, [.ack 1 1 0 4]) := by decide
+
+/-- KEEP, already applied: a node that has applied 3 gets a snapshot of index 2: journal kept, acknowledged. -/
+example : snapKeeps { exFollowerS with lastApplied := 3, commit := 3 } exLogS[1] = true ∧
+    exViewM (NodeSend.appendMsgEnv {} exExtra { exFollowerS with lastApplied := 3, commit := 3 } 0 1 3
+      (.snapshot (.complete exLogS[0] exLogS[1] []))) = ([(1, 0), (2, 1), (3, 1)], 3, 3, 1, [.ack 1 1 0 1]) := by decide
+
+/-- KEEP, last entry held: the snapshot of index 3 (term 1) — the follower holds entry 3 of term 1, unapplied. -/
+example : snapKeeps exFollowerS exLogS[2] = true ∧
+    exViewM (NodeSend.appendMsgEnv {} exExtra exFollowerS 0 1 3 (.snapshot (.complete exLogS[1] exLogS[2] []))) =
+      ([(1, 0), (2, 1), (3, 1)], 1, 3, 1, [.ack 1 1 0 2]) := by decide
+
+example := snapshot_refines {} rfl exExtra exFollowerS 0 1 3 [] [] rfl (by simp [exFollowerS, exLogS])
+    exLogS_wf.idx exLogS[1] exLogS[2] [] ([] ++ absLogS [exLogS[1], exLogS[2]]) (by decide) (by decide) (by decide) rfl 3 1
+    { nodes := fun _ => absNodeM [] exExtra exFollowerS,
+      msgs := [.snapshot 1 0 1 (3 - 1) 1 (3 - 1) ([] ++ absLogS [exLogS[1], exLogS[2]])] } rfl (List.mem_cons_self ..)
+
+/-- PARTIAL chunk of a higher term 2: term adopted (= `observeTerm 1 2`), nothing else, no reply. -/
+example := snapshot_partial_refines {} exExtra exFollowerS 0 2 6 [] .notLast (by intro p l c h; cases h) (by decide) 3 1
+    { nodes := fun _ => absNodeM [] exExtra exFollowerS } rfl
+
+example : exViewM (NodeSend.appendMsgEnv {} exExtra exFollowerS 0 2 6 (.snapshot .notLast)) =
+    ([(1, 0), (2, 1), (3, 1)], 1, 1, 2, []) := by decide
+
+/-- **F7 `snapshot_commit_lags`.**  Install of the snapshot of index 5 from a message whose `commit_index` is 2: the
+real node ends with `lastApplied = 5`, `commitIndex = 2`.  On `commit − 1` (`absNodeS`) that is position 1, whereas
+the protocol model's install sets `commit := max commit' 4 = 4`; `max(commit, lastApplied) − 1` (`absNodeM`) gives 4. -/
+theorem snapshot_commit_lags :
+    exViewM (NodeSend.appendMsgEnv {} exExtra exFollowerS 0 1 2 (.snapshot (.complete exPrevE exLastE []))) =
+      ([(4, 1), (5, 1)], 5, 2, 1, [.ack 1 1 0 4]) ∧
+    (snapNode (absNodeS [] exExtra exFollowerS) 1 4 1 (2 - 1) exPfx).1.commit = 4 ∧
+    (absNodeS exGhost' exExtra
+      (NodeSend.appendMsgEnv {} exExtra exFollowerS 0 1 2 (.snapshot (.complete exPrevE exLastE []))).2.1).commit = 1 ∧
+    (absNodeM exGhost' exExtra
+      (NodeSend.appendMsgEnv {} exExtra exFollowerS 0 1 2 (.snapshot (.complete exPrevE exLastE []))).2.1).commit = 4 := by
+  decide
 
 end Examples
 
